@@ -214,13 +214,16 @@ Proof.
     destruct (xv_ixu _ I ig' ig i' i H1 Hig H2 Hi) as (X & Y); [congruence|]. split; [lia|congruence].
 Qed.
 
-Lemma XInv_create_sg c rp ts : XInv c -> XInv (create_sg true c rp ts).
+Lemma XInv_create_sg clip c rp ts : XInv c -> XInv (create_sg true clip c rp ts).
 Proof.
   intros I. unfold create_sg. destruct (find_pol _ _) as [p|]; [|auto]. destruct (existsb _ _); [auto|].
-  pose proof (XInv_ig_if_needed c rp (xp_igd p) ts (trunc ts (xp_sgd p) + xp_sgd p) I) as H.
-  destruct (ig_if_needed true c rp (xp_igd p) ts (trunc ts (xp_sgd p) + xp_sgd p)) as (c1, ig).
+  cbv zeta.
+  set (st := if clip then clip_start c rp ts (trunc ts (xp_sgd p)) else trunc ts (xp_sgd p)).
+  set (en := if clip then clip_end c rp ts (trunc ts (xp_sgd p) + xp_sgd p) else trunc ts (xp_sgd p) + xp_sgd p).
+  pose proof (XInv_ig_if_needed c rp (xp_igd p) ts en I) as H.
+  destruct (ig_if_needed true c rp (xp_igd p) ts en) as (c1, ig).
   destruct H as (I1 & Hig & Hen & Hrp & (Esg & _)).
-  set (g := {| sg_id := c_maxsg c1 + 1; sg_rp := rp; sg_start := trunc ts (xp_sgd p); sg_end := trunc ts (xp_sgd p) + xp_sgd p;
+  set (g := {| sg_id := c_maxsg c1 + 1; sg_rp := rp; sg_start := st; sg_end := en;
                sg_del := false; sg_shards := fresh_shards (c_ptnum c1) 0 (c_maxsh c1) ig |}).
   assert (New : forall s, In s (sg_shards g) -> (cs_ix s <= c_maxix c1) /\
             forall ig' i', In ig' (c_igs c1) -> In i' (ig_ixs ig') -> ci_id i' = cs_ix s -> sg_end g <= ig_end ig' /\ ig_rp ig' = rp).
@@ -373,7 +376,7 @@ Proof.
   apply fold_inv; [intros a v Ha; apply XInv_prune_sg, XInv_del_sg; auto|auto].
 Qed.
 
-Lemma XInv_xstep repP w e : XInv (x_cat w) -> XInv (x_cat (fst (xstep true repP w e))).
+Lemma XInv_xstep repP clip w e : XInv (x_cat w) -> XInv (x_cat (fst (xstep true repP clip w e))).
 Proof.
   intros I. destruct e; cbn [xstep fst].
   - cbn. apply XInv_create_sg; auto.
@@ -385,11 +388,11 @@ Proof.
   - cbn. auto.
 Qed.
 
-Lemma XInv_xrun repP es : forall w, XInv (x_cat w) -> XInv (x_cat (fst (xrun true repP w es))).
+Lemma XInv_xrun repP clip es : forall w, XInv (x_cat w) -> XInv (x_cat (fst (xrun true repP clip w es))).
 Proof.
   induction es as [|e r IH]; cbn; [auto|]. intros w I.
-  pose proof (XInv_xstep repP w e I) as H. destruct (xstep true repP w e) as (w1, l1). cbn in H.
-  specialize (IH w1 H). destruct (xrun true repP w1 r) as (w2, l2). cbn in *. auto.
+  pose proof (XInv_xstep repP clip w e I) as H. destruct (xstep true repP clip w e) as (w1, l1). cbn in H.
+  specialize (IH w1 H). destruct (xrun true repP clip w1 r) as (w2, l2). cbn in *. auto.
 Qed.
 
 (* ------------------------------------------------------------------ what the invariant buys *)
